@@ -35,6 +35,23 @@ THEOREMS = [
     'Sbepp.Properties.C08.symbolic_name_per_character',
 ]
 
+# translator tie of the layout arithmetic (extract/validator_layout.py -> Sbepp.Extracted.ValidatorLayout,
+# lean/Sbepp/Lemmas/ValidatorLayoutTie.lean): the C++ steps as the source states them now = the steps of the model
+TIE_MODULE = 'Sbepp.Lemmas.ValidatorLayoutTie'
+TIE_PART = 'validator_layout'
+TIE_THEOREMS = ['Sbepp.Schema.LayoutTie.' + t for t in (
+    'validate_field_offset_tie', 'validate_element_offset_tie', 'validate_block_length_tie',
+    'composite_loop_tie', 'validate_encoding_composite_tie', 'members_loop_tie', 'validate_members_tie',
+    'nowrap_needed', 'wrap_accepts_overlap',
+    'extracted_field_offset_ok', 'extracted_field_offset_next', 'extracted_field_offset_below_min',
+    'extracted_field_offset_error', 'extracted_element_offset_const', 'extracted_element_offset_nonconst',
+    'extracted_element_offset_ok', 'extracted_element_offset_below_min', 'extracted_block_length_ok',
+    'extracted_block_length_below_min', 'extracted_block_length_error',
+    'compLeaves_step', 'vElementOffset_step', 'vFields_step', 'vLevelValues_step',
+    'compLeaves_skeleton', 'fieldLeaves_skeleton', 'composite_size_extracted', 'level_layout_extracted',
+    'message_layout_extracted')]
+THEOREMS += TIE_THEOREMS
+
 ANSI = re.compile(r'\x1b\[[0-9;]*m')
 ERR = re.compile(r'^Error: (?:(.*?):(\d+):(\d+): )?(.*)$')
 
@@ -392,7 +409,7 @@ def merge(dst, src):
 def run(chk):
     chk.extract()
     tables_tie(chk)
-    proved = chk.prove(MODULE, THEOREMS)
+    proved = chk.prove(MODULE, THEOREMS, extra_targets=[TIE_MODULE])
     if chk.tier == 'thorough' and proved:
         chk.leanchecker(MODULE)
     thorough = chk.tier == 'thorough'
@@ -456,6 +473,9 @@ def run(chk):
         shutil.rmtree(workdir, ignore_errors=True)
     if chk.failed_obligations and not chk.violations:
         chk.report_unproved('theorem', chk.failed_obligations)
+    xfail = ((chk.extract_report or {}).get('parts', {}).get(TIE_PART, {'failed': {'part': 'not run'}}) or {}).get('failed')
+    if xfail and not chk.violations:
+        chk.report_unproved('extraction', {'part': TIE_PART, 'failed': xfail})
     chk.assumptions += [
         'the model receives the schema as an AST (vlib/mutate.py to_sexp): XML well-formedness, missing required attributes, '
         'non-numeric attribute text, presence/byteOrder tokens, member order and <include> are outside the model (C09)',
